@@ -7,6 +7,16 @@ _PENDING = ["C01", "C02", "C03", "C04", "C05", "C06", "C07", "C08", "C09", "C10"
 RELAY_NOTE = "Trusted: Coq kernel; the Go harness (event abstraction: the harness records the credential descriptor, attribute presence/size and relay port it used), pion/stun encoding and MESSAGE-INTEGRITY, Go timers under testing/synctest. One listener/one allocation manager is modelled; TCP relay connections are C16's model."
 
 CHECKS = [
+    {"property_id": "C16",
+     "text": "Coq theorems on Model/TcpRelay.v: a Connect success / ConnectionAttempt announces an id no connection has, for a really dialled / "
+             "accepted peer connection (inbound only with a permission); ConnectionBind succeeds only for an existing unbound connection of the "
+             "authenticated user's allocation and binds it once; unbound connections are dropped (peer side closed) exactly at the 30 s deadline; "
+             "bytes cross only bound pairs unmodified; duplicate Connect is 446 with no change and the manager is never left locked over any history. "
+             "The model is run against the real server on an in-memory stream listener (control and data connections, peer connections, "
+             "segmented byte streams both ways, closes, ticks around 30 s) with a wedge probe after each step.",
+     "note": "Trusted: Coq kernel, Go harness, simulated TCP. io.Copy taken as identity; data content checked by the correspondence runs. "
+             "Allocation/permission rules are C01-C07's.",
+     "technique": "Coq proof (step characterisation, invariant over histories) + differential correspondence against the real server's RFC 6062 path under virtual time"},
     {"property_id": "C09",
      "text": "Coq theorems for EVERY byte string: the byte-level STUN decoder, the server's dispatch and the client's dispatch never reach the "
              "Panic outcome (every index/slice is a checked operation in the model), the client's (handled, error) table, handlers only for "
